@@ -310,6 +310,59 @@ def run(ctx):
             else:
                 r.violation(site, "a path returns to the loop head without advancing the cursor", f, lp, path=w)
 
+    # ---------------------------------------------------------------- the lexer's loops end at end of input
+    r = rep.rule("R-EOF-EXIT", "the lexer's character fetch saturates at the end of the buffer (it returns -1 and does not move), so `getNextChar()` is progress only "
+                               "before the end: every lexer loop, walked with the fetched character fixed to the end marker (== -1 true, every other character "
+                               "comparison and character-class test false), leaves — otherwise a file that ends inside the construct never finishes loading", floor=6)
+    n_loops = 0
+    for f in sorted(targets, key=lambda f: (f.file, f.line)):
+        if not qmatch(f.cls, "llbuild::ninja::Lexer"):
+            continue
+        for lp in [n for n in f.nodes if n.get("k") in ("while", "for", "do")]:
+            if not any(c.get("k") == "call" and c.get("fk") in lexer_writers for c in lp.walk()):
+                continue
+            body = lp.child("body")
+            first = first_elem_pos(f, body)
+            if first is None:
+                continue
+            env = {}
+            scan = list(lp.walk())
+            # a character test may sit in a small predicate of the lexer (`isPathStringTerminator(c)`): its comparisons are fixed the same way
+            # and the call itself is then evaluated by walking the predicate, not assumed false
+            helpers = set()
+            for x in lp.walk():
+                if x.get("k") == "call" and x.get("fk") in prog.functions and x.get("fk") not in lexer_writers and len(x.get("args", [])) == 1:
+                    h_ = prog.functions[x["fk"]]
+                    # (a predicate that never mentions the end marker is a plain character class: the marker is not in it)
+                    if not h_.is_lambda and len(h_.nodes) < 120 and "peekNextChar" not in h_.name and any(is_minus_one(y) for y in h_.nodes if y.get("k") in ("un", "cast")):
+                        helpers.add(h_.key)
+                        scan += [y for y in h_.nodes]
+            for x in scan:
+                if x.get("k") == "bin" and x.get("op") in ("==", "!="):
+                    l_, r_ = x.child("l"), x.child("r")
+                    for a_, b_ in ((l_, r_), (r_, l_)):
+                        sb = strip_casts(b_)
+                        if sb is None:
+                            continue
+                        val = None
+                        if is_minus_one(b_):
+                            val = True
+                        elif sb.get("k") in ("char", "int"):
+                            val = False
+                        elif "buffer.end()" in expr_str(sb) and "bufferPos" in expr_str(a_):
+                            val = True
+                        if val is not None:
+                            env["(%s == %s)" % (cfg.canon(a_), cfg.canon(b_))] = val
+                            env["(%s == %s)" % (cfg.canon(b_), cfg.canon(a_))] = val
+                if x.get("k") == "call" and len(x.get("args", [])) == 1 and ((x.get("fn") or "").split("::")[-1].startswith("is")) and x.get("fk") not in helpers:
+                    env[cfg.canon(x)] = False        # the end marker is in no character class
+            n_loops += 1
+            w = cfg.cycle_under(f, first, env)
+            site = "%s|loop@%s" % (f.name.split("::")[-1], loop_key(f, lp))
+            r.check(w is None, site, "", "with the end marker fetched the loop can go round again: a buffer that ends here is never finished", f, lp)
+    if n_loops < 6:
+        raise AnalysisBroken("R-EOF-EXIT: only %d consuming loops found in the lexer" % n_loops)
+
     # ---------------------------------------------------------------- token tiling
     r = rep.rule("R-TOKEN-TILING",
                  "every token Lexer::lex returns gets its start assigned before its kind/length is set; length is "
@@ -656,4 +709,6 @@ VARIANTS = [
          new="  return bufferPos == buffer.end() ? -1 : static_cast<unsigned char>(*bufferPos);", expect=None),
     dict(name="peek-ternary-sentinel-on-wrong-arm", file="lib/Ninja/Lexer.cpp", old="  if (bufferPos == buffer.end())\n    return -1;\n  return static_cast<unsigned char>(*bufferPos);",
          new="  return bufferPos + 1 == buffer.end() ? -1 : static_cast<unsigned char>(*bufferPos);", expect=("R-EOF-TRUE-END", "eof-only-at-end")),
+    dict(name="comment-skip-ignores-end-of-buffer", file="lib/Ninja/Lexer.cpp", old="  for (;;) {\n    int c = peekNextChar();\n    if (c == -1 || c == '\\n' || c == '\\r')\n      break;\n    getNextChar();\n  }",
+         new="  for (int c = peekNextChar(); c != '\\n' && c != '\\r'; c = peekNextChar())\n    getNextChar();", expect=("R-EOF-EXIT", "skipToEndOfLine")),
 ]
